@@ -70,8 +70,9 @@ impl Runner {
                     forall|i: int| 0 <= i < s@.len() ==> s@[i] >= 1,
                 decreases runner.max_num_threads - num_spawned, 
             {
+                let ghost n0 = num_spawned;
                 for _i in 0..LAG_PERIODICITY
-                    invariant runner.wf(), num_spawned == s@.len(), num_spawned < runner.max_num_threads, chunk >= 1,
+                    invariant runner.wf(), num_spawned == s@.len(), num_spawned < runner.max_num_threads, chunk >= 1, num_spawned == n0 + _i,
                         forall|i: int| 0 <= i < s@.len() ==> s@[i] >= 1,
                 {
                     match runner.do_spawn(num_spawned, iter.has_more()) {
